@@ -281,8 +281,9 @@ def run_history(db: str, traces, batches: List[List[int]], nconn: int, days: Opt
         for bi, b in enumerate(batches):
             fake.day = days[bi] if days else 0
             stores[bi % nconn].add([traces[i] for i in b])
-        for s in stores:
-            s.conn.close()
+        # (the connections are dropped, not closed: a store handed out by make_store is the library's to manage, and code
+        # that hands the same store out again must not find it closed by the harness)
+        del stores
         if batches and any(batches) and fake.calls == 0:
             raise HarnessError("clock seam not consulted by SQLiteStore.add (seam lost)")
     finally:
@@ -316,7 +317,20 @@ def explore_family(ctx: Ctx, fname: str) -> Result:
     res = Result()
     fam = families()[fname]
     n = len(fam)
-    db = str(ctx.tmp / f"c14_{fname}.sqlite3")
+    db_base = str(ctx.tmp / f"c14_{fname}")
+    db_n = [0]
+
+    def fresh_db() -> str:
+        """every history gets a database file of its own (a path is never reused for different contents)"""
+        old = f"{db_base}_{db_n[0]}.sqlite3"
+        if os.path.exists(old):
+            os.unlink(old)
+        db_n[0] += 1
+        path = f"{db_base}_{db_n[0]}.sqlite3"
+        mcfg.STATE["db"] = path
+        return path
+
+    db = fresh_db()
     for k in (0, 3):
         for rewriting in (True, False):
             traces = mk_traces(fam)
@@ -349,6 +363,7 @@ def explore_family(ctx: Ctx, fname: str) -> Result:
             # histories, identity set policy
             for hi, (label, batches, nconn, days) in enumerate(histories(n)):
                 res.states += 1
+                db = fresh_db()
                 run_history(db, traces, batches, nconn, days)
                 POLICY.begin("identity")
                 case = {"family": fname, "k": k, "rewriting": rewriting, "history": hi, "policy": ["identity", -1, 0]}
@@ -358,6 +373,7 @@ def explore_family(ctx: Ctx, fname: str) -> Result:
                 if hi == 7 and k == 3 and rewriting:
                     res.sample({"family": fname, "rows": n, "history": {"kind": label, "batches": batches, "connections": nconn, "days": days}})
             # set-iteration schedules on the reference history
+            db = fresh_db()
             run_history(db, traces, [list(range(n))], 1)
             old_set = stubs_mod.__dict__.get("set", None)
             stubs_mod.set = SeamSet  # type: ignore[attr-defined]
@@ -506,13 +522,120 @@ def member_order_stage(ctx: Ctx) -> Result:
     return res
 
 
+DEFAULT_CFG_FAMILIES = ["union3", "generator-yields", "same-arguments-different-results", "same-qualname-two-modules"]
+
+
+def default_config_stage(ctx: Ctx, fname: str) -> Result:
+    """The SHIPPED configuration (monkeytype.config.DefaultConfig, database named by MT_DB_PATH) used the way one long-lived
+    process uses it: every split of the rows into consecutive batches, batches logged alternately through the configuration's
+    own logger and by another process with its own connection, `monkeytype stub` run after EVERY batch (whole module and, alternately, one function by `module:qualname`)
+    - the stub after the last batch equals the stub of a database that received all rows in one batch."""
+    import vfx.shapes as S
+    from monkeytype import cli
+    from monkeytype.config import DefaultConfig
+
+    res = Result()
+    fam = families()[fname]
+    n = len(fam)
+    traces = mk_traces(fam)
+    old_env = os.environ.get("MT_DB_PATH")
+
+    def stub_all() -> Tuple[Any, str, str]:
+        outs, errs, rcs = [], [], []
+        for mod in MODS:
+            out, err = io.StringIO(), io.StringIO()
+            try:
+                rc = cli.main(["-c", "monkeytype.config:DefaultConfig()", "stub", mod], out, err)
+            except Exception as e:  # noqa: BLE001
+                rc = f"raised {e!r}"
+            rcs.append(rc)
+            outs.append(out.getvalue())
+            errs.append(err.getvalue())
+        return (0 if all(r == 0 for r in rcs) else rcs), SEP.join(outs), "".join(errs)
+
+    try:
+        ref = None
+        for mask in [0] + list(range(1, 2 ** (n - 1))):
+            batches: List[List[int]] = [[]]
+            for j in range(n):
+                batches[-1].append(j)
+                if j < n - 1 and mask & (1 << j):
+                    batches.append([])
+            db = str(ctx.tmp / f"c14_default_{fname}_{mask}.sqlite3")
+            if os.path.exists(db):
+                os.unlink(db)
+            os.environ["MT_DB_PATH"] = db
+            res.states += 1
+            case = {"family": "default-config:" + fname, "k": 0, "rewriting": True, "history": mask, "policy": ["default-config", len(batches), 0]}
+            text_rc = None
+            for bi, b in enumerate(batches):
+                if bi % 2 == 1:
+                    # every second batch arrives from ANOTHER process (a `monkeytype run` elsewhere) through a connection
+                    # of its own, while this process goes on generating stubs
+                    pid = os.fork()
+                    if pid == 0:
+                        try:
+                            import sqlite3
+
+                            from monkeytype.db.sqlite import SQLiteStore
+
+                            conn = sqlite3.connect(db)
+                            SQLiteStore(conn).add([traces[i] for i in b])
+                            conn.close()
+                            os._exit(0)
+                        except BaseException:  # noqa: BLE001
+                            os._exit(3)
+                    _, status = os.waitpid(pid, 0)
+                    if status != 0:
+                        raise HarnessError(f"writer process failed (status {status})")
+                else:
+                    cfg = DefaultConfig()
+                    logger = cfg.trace_logger()
+                    for i in b:
+                        logger.log(traces[i])
+                    logger.flush()
+                res.transitions += 1
+                if bi % 2 == 1:
+                    f0 = fam[b[0]][0]
+                    cli.main(["-c", "monkeytype.config:DefaultConfig()", "stub", f"{f0.__module__}:{f0.__qualname__}"], io.StringIO(), io.StringIO())
+                text_rc = stub_all()
+            res.evaluations += 1
+            res.validated += 1
+            rc, text, err = text_rc
+            if rc != 0:
+                res.violate(Violation(ID, "exception", "default-config:" + fname, case, f"batches {batches}: stub rc={rc} {err[-300:]}"))
+                continue
+            bad, canon = canonical(text, S)
+            if bad:
+                res.violate(Violation(ID, "syntax", "default-config:" + fname, case, f"batches {batches}: {bad}"))
+                continue
+            if ref is None:
+                ref = canon
+            elif canon != ref:
+                res.violate(Violation(ID, "order-dependence", "default-config-batches-with-stubs-in-between:" + fname, case, f"rows logged in batches {batches} with `monkeytype stub` after every batch (one process, DefaultConfig) vs all rows in one batch: {diff_canon(ref, canon)}"))
+            else:
+                res.nontrivial_n += 1
+            res.outcomes.add(hash(repr(canon)))
+            os.unlink(db)
+        res.oblige("default-config-batches", True)
+    finally:
+        if old_env is None:
+            os.environ.pop("MT_DB_PATH", None)
+        else:
+            os.environ["MT_DB_PATH"] = old_env
+    return res
+
+
 def run(ctx: Ctx) -> Result:
     names = list(families())
 
     def work(ctx: Ctx, fname: str) -> Result:
+        if fname.startswith("default-config:"):
+            return default_config_stage(ctx, fname.split(":", 1)[1])
         return explore_family(ctx, fname)
 
-    res = run_shards(ctx, work, names)
+    res = run_shards(ctx, work, names + ["default-config:" + f for f in DEFAULT_CFG_FAMILIES])
+    res.obligations.setdefault("default-config-batches", False)
     res.merge(member_order_stage(ctx))
     res.obligations.setdefault("member-order-inside-traces", False)
     res.obligations.setdefault("seam-consulted", False)
@@ -523,6 +646,8 @@ def run(ctx: Ctx) -> Result:
 
 
 def replay(case: Dict[str, Any], ctx: Ctx) -> List[Violation]:
+    if str(case.get("family", "")).startswith("default-config:"):
+        return default_config_stage(ctx, case["family"].split(":", 1)[1]).violations
     if str(case.get("family", "")).startswith("member-order:"):
         return member_order_stage(ctx).violations
     r = explore_family(ctx, case["family"])
